@@ -1,4 +1,4 @@
-// Command harness drives the real lachesis-base code in-process.
+// Package hlib is the shared plumbing of the harness commands (go/cmd/h-<family>), which drive the real lachesis-base code in-process.
 //
 //	harness gen <stream> <seed> <n> [tier]   -> writes an ops file (one op per line) to stdout
 //	harness run <stream>                     -> reads ops on stdin, executes them on the real
@@ -7,7 +7,7 @@
 //
 // Lines starting with '#' are case separators / comments and are echoed verbatim by `run`.
 // All random choices of `gen` derive from <seed> through one splitmix64 PRNG.
-package main
+package hlib
 
 import (
 	"bufio"
@@ -44,9 +44,11 @@ type Closer interface {
 
 var streams = map[string]*Stream{}
 
-func register(name string, s *Stream) { streams[name] = s }
+// Register adds a stream (called from init functions of the family commands).
+func Register(name string, s *Stream) { streams[name] = s }
 
-func main() {
+// Main is the entry point of every family command.
+func Main() {
 	if len(os.Args) < 3 {
 		usage()
 	}
@@ -201,9 +203,9 @@ func (r *Rand) Around(bits uint, points ...uint64) uint64 {
 // ---------------------------------------------------------------------------------------------
 // small parsing helpers shared by the streams
 
-func fields(line string) []string { return strings.Fields(line) }
+func Fields(line string) []string { return strings.Fields(line) }
 
-func atou(s string) uint64 {
+func Atou(s string) uint64 {
 	v, err := strconv.ParseUint(s, 10, 64)
 	if err != nil {
 		panic("bad number " + s)
@@ -211,7 +213,7 @@ func atou(s string) uint64 {
 	return v
 }
 
-func atoi(s string) int64 {
+func Atoi(s string) int64 {
 	v, err := strconv.ParseInt(s, 10, 64)
 	if err != nil {
 		panic("bad number " + s)
@@ -219,7 +221,7 @@ func atoi(s string) int64 {
 	return v
 }
 
-func hexOf(b []byte) string {
+func HexOf(b []byte) string {
 	if len(b) == 0 {
 		return "-"
 	}
@@ -231,7 +233,7 @@ func hexOf(b []byte) string {
 	return string(out)
 }
 
-func unhex(s string) []byte {
+func Unhex(s string) []byte {
 	if s == "-" {
 		return []byte{}
 	}
@@ -246,14 +248,14 @@ func unhex(s string) []byte {
 	return out
 }
 
-func b2s(b bool) string {
+func B2s(b bool) string {
 	if b {
 		return "1"
 	}
 	return "0"
 }
 
-func joinU(vs []uint64, sep string) string {
+func JoinU(vs []uint64, sep string) string {
 	ss := make([]string, len(vs))
 	for i, v := range vs {
 		ss[i] = strconv.FormatUint(v, 10)
@@ -262,7 +264,7 @@ func joinU(vs []uint64, sep string) string {
 }
 
 // splitList parses "a,b,c" ("-" or "" = empty).
-func splitList(s string) []string {
+func SplitList(s string) []string {
 	if s == "-" || s == "" {
 		return nil
 	}
